@@ -130,10 +130,10 @@ def ensure(config="quick", verbose=True):
         info["tmpl_ok"] = tok
         if not tok:
             info["tmpl_log"] = tlog[-2000:]
-        # prune old caches (keep 6 newest)
+        # prune old caches (keep 30 newest)
         root = os.path.join(CACHE, "facts")
         olds = sorted((os.path.getmtime(os.path.join(root, x)), x) for x in os.listdir(root))
-        for _, x in olds[:-6]:
+        for _, x in olds[:-30]:
             shutil.rmtree(os.path.join(root, x), ignore_errors=True)
         json.dump(info, open(marker, "w"))
         return d, info
